@@ -148,6 +148,17 @@ CHECKS["C15"] = dict(
          "with the canonical twin given by the reference. Sampled pairs, not exhaustive.",
     design="3/C15")
 
+CHECKS["C18"] = dict(
+    technique="TLA+ reference machine records every reached include that resolves to no file (PreprocCore.warns) and "
+              "GenScen.WarnExpect tallies unknown directives / ghost entries / unknown compiler / unknown option; TLC "
+              "invariants; TLC-simulated scenarios replayed in-process and through the CLI",
+    text="TLC checks that fully honoured scenarios expect no warning, that totals are the sums of the categories and that "
+         "every include warning names a reached directive (the reference has no memo that could swallow a repeat); for "
+         "each simulated scenario the multiset of issued include warnings (kind, file, line, name) and the counts of the "
+         "other categories are compared with the specification in-process, and cbi.log plus the closing totals through "
+         "the CLI. Sampled, not exhaustive; message formats are parsed with the regular expressions listed in DESIGN A.2.",
+    design="3/C18")
+
 PENDING_REASON = "check not built yet (build in progress; see DESIGN.md section 7)"
 
 
